@@ -279,7 +279,7 @@ func c01StopPoint(c *Ctx) {
 	c.Check(n == 1 && len(links) == 1, "C01.c-stop-in-selector", b.Name+" › stop link", b.SSA.Pos(), "exactly one stopAt entry, assigned the stop link parameter", "the selector's stop condition is not built from the given stop link")
 	// the limit written is the limit given
 	lim := b.SSA.Params[0]
-	depth := c.Calls(b.SSA, Invoke("NodeAssembler.AssignInt", Any(), Call("selector.RecursionLimit).Depth", Op("param", lim.Name()))))
+	depth := c.CallsInl(b.SSA, Invoke("NodeAssembler.AssignInt", Any(), Call("selector.RecursionLimit).Depth", Op("param", lim.Name()))), 2)
 	seq := c.Calls(b.SSA, Invoke("NodeAssembler.AssignNode", Any(), Op("param", b.SSA.Params[1].Name())))
 	if len(seq) == 0 {
 		// the sequence parameter is reassigned to a default when nil: accept the variable cell of that parameter
@@ -779,7 +779,7 @@ func c01SelectorRewrite(c *Ctx) {
 		}
 		c.Check(ok, "C01.g-selector-rewrite", k+" › skips only the limit entry", nx.In.Pos(), "an entry is skipped only when its key is the limit key", "an entry other than the limit is dropped when the selector's limit is rewritten (stop condition or sequence lost)")
 	}
-	depth := c.Calls(w.SSA, Invoke("NodeAssembler.AssignInt", Any(), Call("selector.RecursionLimit).Depth", Op("param", limitParam.Name()))))
+	depth := c.CallsInl(w.SSA, Invoke("NodeAssembler.AssignInt", Any(), Call("selector.RecursionLimit).Depth", Op("param", limitParam.Name()))), 2)
 	c.Check(len(depth) == 1, "C01.g-selector-rewrite", w.Name+" › new limit", w.SSA.Pos(), "the depth written is the given limit's depth", "rewritten selector does not carry the given limit")
 	c.Floor("C01.g-selector-rewrite", 3)
 }
